@@ -29,6 +29,13 @@ class C12(Prop):
         "NV.C12.command_efun_needs_no_turn",
         "NV.C12.scan_spec",
         "NV.C12.cmdLoop_spec",
+        "NV.C12.scan_finds_every_eligible",
+        "NV.C12.grant_gives_turn",
+        "NV.C12.turns_at_most_connected_users",
+        "NV.C12.loop_bound_sufficient",
+        "NV.C12.no_starvation",
+        "NV.C12.cmdLoop_complete",
+        "NV.C12.cmdLoop_serves",
     ]
     witness_theorems = ["NV.C12.getchar_typeahead_witness", "NV.C12.C12_trace_Full_false"]
     consts = [("hasCmdTurn", "HAS_CMD_TURN"), ("cmdInBuf", "CMD_IN_BUF"), ("singleChar", "SINGLE_CHAR"),
